@@ -45,6 +45,8 @@ def gen_case(rng, k):
         rng.choice(['plain', 'wrap_inside', 'wrap_inside', 'origin_old', 'origin_old', 'overrides', 'overrides', 'boundary',
                     'boundary', 'malformed'])
     T = rng.choice([1, 1, 2, 2, 3, 4, 5, 6, 8])
+    if strat == 'boundary':
+        T = max(T, 2)
     dt = rng.choice([1.0, 2.0, 4.0])
     W = 2.0 ** rng.choice([5, 6, 8, 20, 28] if strat != 'wrap_inside' else [5, 5, 6])
     # true start of every dump: quarter-dump grid, never early, sometimes late / dropped dumps
@@ -52,12 +54,19 @@ def gen_case(rng, k):
     for i in range(T):
         grid4.append(g)
         g += 4 + rng.choice([0, 0, 0, 1, 2, 4])
+    two_wraps = strat == 'wrap_inside' and (k == 7 or (k >= 12 and rng.random() < 0.35))
+    if two_wraps:
+        # an observation longer than the wrap period: the counter wraps TWICE (or more) between first and last dump
+        W, dt, T = 32.0, 4.0, rng.choice([6, 7, 8])
+        grid4 = [rng.choice([6, 8]) * i for i in range(T)]
     true = [T0 + dt / 4 * x for x in grid4]
     # the counter started (sync time) s0 seconds before the first dump
     if strat == 'wrap_inside':
         span = true[-1] - true[0]
         s0 = W - rng.choice([0.25, dt, dt * 1.5, max(0.25, span / 2), max(0.25, span)])     # a wrap during (or right after) the data
         s0 = max(0.0, s0)
+        if two_wraps:
+            s0 = W - rng.choice([0.25, dt, 2 * dt])
     else:
         s0 = rng.choice([0.0, 0.25, dt, W / 2, W - 0.25]) if rng.random() < 0.5 else rng.randrange(0, int(min(W, 4096) * 4)) / 4.0
     sync = T0 - s0
@@ -103,7 +112,8 @@ def gen_case(rng, k):
     if strat == 'boundary' and T >= 2:
         # a backward step of EXACTLY half a wrap period (not a wrap), or one quarter of a second more (a wrap), or a small one
         i = rng.randrange(1, T)
-        step = rng.choice([-W / 2, -W / 2 - 0.25, -W / 2 + 0.25, -dt, -W + 0.25])
+        steps = [-W / 2, -W / 2 - 0.25, -W / 2 + 0.25, -dt, -W + 0.25]
+        step = steps[(k // 6) % 5] if k < 60 else rng.choice(steps)      # every kind of step in every run
         shift = (stored[i - 1] + step) - stored[i]
         case['stored'] = stored[:i] + [s + shift for s in stored[i:]]
         case['true'] = None
@@ -252,6 +262,8 @@ def run_case(ctx, case, hid, model_out=None):
                   sample=dict(strat=case['strat'], T=case['T'], W=case['W']))
     ctx.count('resyn:strat=' + case['strat'])
     ctx.count('resyn:T=%s' % ('1' if case['T'] == 1 else '2' if case['T'] == 2 else '3+'))
+    if sum(1 for a, b in zip(case['stored'], case['stored'][1:]) if b - a < -case['W'] / 2) > 1:
+        ctx.count('resyn:several_wraps_inside')
     ctx.count('resyn:outcome=' + (spec[0] if spec[0] == 'ok' else 'err%s' % spec[1]))
     cdoc = dict(hid=hid, fail_at=0, spec=dict(fmt='v3', resyn=short(case)),
                 ops=['katdal.open(file, time_scale=%r, time_origin=%r, time_offset=%r); d.timestamps[:]'
